@@ -456,7 +456,8 @@ func objValues(c *fw.Ctx, bound int) {
 // assignments; printed, listed, read, one property removed, listed again, re-added, listed again -- under
 // every iteration-order schedule within the bound.
 func objNames(c *fw.Ctx, bound int) {
-	pool := []string{"k1", "k01", "k001", "k\u09e7", "k10", "k9", "k1a", "K1", "k_1", "\u0995\u09e7", "\u09951", "\u0995\u09e6\u09e7", "a", "aa", "k\u09DF", "k\u09AF\u09BC"}
+	pool := []string{"k1", "k01", "k001", "k\u09e7", "k10", "k9", "k1a", "K1", "k_1", "\u0995\u09e7", "\u09951", "\u0995\u09e6\u09e7", "a", "aa", "k\u09DF", "k\u09AF\u09BC",
+		model.BiLen, model.BiInputLatin, model.BiKeys} // ... and names of built-ins (plain identifiers as far as an object is concerned)
 	c.Bound("confusable_names", len(pool))
 	id, num := model.Id, model.Num
 	runNames := func(names []string, viaAssign bool) {
